@@ -279,6 +279,13 @@ func judgeGet(q *getReq, useQuery bool, autoAdvanced bool) (why, cls string) {
 			return fmt.Sprintf("the parser produced parameters %s, the documented typing rules give %s", got, rbits), "wrong-typing"
 		}
 	}
+	if q.Status == 500 && autoAdvanced && (method != "h" || q.Entered) {
+		// A timer of the library expired during the run (the scheduler may let one
+		// fire while a request is in flight): a call that timed out is "any other
+		// failure", whatever the method. (For the tagged method the call must have
+		// been made: its handler was entered.)
+		return "", ""
+	}
 	switch {
 	case method == "echo" || method == "some/echo":
 		want := string(pbits)
